@@ -7,7 +7,8 @@ import subprocess, sys, json, os, shutil, time
 def sh(c, **kw): return subprocess.run(c, shell=True, capture_output=True, text=True, **kw)
 pid, k = sys.argv[1], sys.argv[2]
 checks = sys.argv[3:] or [pid]
-wt = f'/tmp/wt-{pid}'; md = f'{wt}/MUTANTS/{k}'
+wt = os.environ.get('SEED_WT', f'/tmp/wt-{pid}'); md = f'{wt}/MUTANTS/{k}'
+name = os.environ.get('SEED_NAME', f'{pid}-{k}')
 env = f'CARGO_TARGET_DIR={wt}/target CARGO_NET_OFFLINE=true'
 assert os.path.exists(f'{md}/patch.diff'), 'no patch'
 sh(f'git -C {wt} checkout -- . ; rm -f {wt}/tests/demo.rs')
@@ -21,7 +22,7 @@ suite = r.stdout.count('test result: ok') >= 2 and 'FAILED' not in r.stdout and 
 r = sh(f'cd {wt} && {env} cargo test --offline --test demo 2>&1 | grep -E "^test result"')
 mut_demo_fails = 'FAILED' in r.stdout
 sh(f'git -C {wt} checkout -- . ; rm -f {wt}/tests/demo.rs')
-print(f'{pid}-{k}: demo passes on clean tree={clean_demo} existing suite passes with mutant={suite} demo fails with mutant={mut_demo_fails}', flush=True)
+print(f'{name}: demo passes on clean tree={clean_demo} existing suite passes with mutant={suite} demo fails with mutant={mut_demo_fails}', flush=True)
 results = {}
 if clean_demo and suite and mut_demo_fails:
     assert sh('git -C /repo status --porcelain').stdout.strip() == '', '/repo not clean'
@@ -41,7 +42,7 @@ if clean_demo and suite and mut_demo_fails:
             print('   check', c, results[c], flush=True)
     finally:
         sh('git -C /repo checkout -- .'); sh('rm -rf /verif/replays')
-    dst = f'/verif/seeded/{pid}-{k}'; os.makedirs(dst, exist_ok=True)
+    dst = f'/verif/seeded/{name}'; os.makedirs(dst, exist_ok=True)
     for f in ['patch.diff', 'demo.rs', 'README.md']: shutil.copy(f'{md}/{f}', f'{dst}/{f}')
     meta = {'breaks_property': pid, 'source': 'independent sub-agent given only the property text and a scratch worktree',
             'needs_to_manifest': 'see README.md', 'validated': {'demo_passes_on_clean_tree': clean_demo, 'existing_tests_pass_with_mutant': suite, 'demo_fails_with_mutant': mut_demo_fails},
